@@ -771,6 +771,11 @@ def ob_alignment(chk: Check) -> None:
 def run(chk: Check) -> None:
     import time
     t0 = time.time()
+    # ds_structure = cls().visit(ast) + _ds_usage_analysis: the records it consumes are built by visit_Start (numbering,
+    # per-statement reset, unknown-variable promotion) - the same obligations as in C12, on the same real code
+    import _dagproof as DP
+    DP.ob_visit_start(chk, DP.statement_kinds(chk))
+    DP.ob_promotion(chk)
     ob_usage_analysis(chk)
     ob_executor(chk)
     ob_alignment(chk)
@@ -787,5 +792,8 @@ def run(chk: Check) -> None:
                      "as bounded): the statement list handed to ds_structure / transpile is topologically sorted and "
                      "single-assignment, and the dependency records of the second visit equal those of the first "
                      "(position independence).")
+    chk.assume("'statement k reads x' means: x is in the `inputs` of the dependency record of statement k.  That the SQL generated "
+               "for a statement references exactly those tables (content of the DAG collectors and of the transpiler) is NOT "
+               "shown by the deductive tier - it is exercised by the bounded tier of this check and of C12 only")
     chk.trust("vc.pycoll container semantics (dict / set / list / defaultdict operations as SMT array reads and stores; a list "
               "is its multiset of elements); vc.pyloop extraction of the loop bodies")
